@@ -87,10 +87,11 @@ fn slot(i: usize, p: &str) -> Slot {
         24 => d(vec![load(&t(0), r8("RDX"), add(e8("RAX"), cst(16, 8)))]),
         25 => d(vec![assign(&t(0), r8("RSI"), e8("RBX"))]),
         26 => c(Call::Ext("malloc")),
+        // load through the value into the register that carries it: afterwards nothing carries it any more
         _ => d(vec![load(&t(0), r8("RAX"), e8("RAX"))]),
     }
 }
-const QUICK_SLOTS: [usize; 14] = [0, 1, 2, 4, 5, 6, 7, 9, 10, 12, 15, 17, 19, 21];
+const QUICK_SLOTS: [usize; 15] = [0, 1, 2, 4, 5, 6, 7, 9, 10, 12, 15, 17, 19, 21, 27];
 const THOROUGH_4SLOT: [usize; 13] = [0, 1, 2, 4, 5, 6, 9, 10, 12, 14, 17, 19, 20];
 
 fn externs() -> Vec<ExternSymbol> {
